@@ -299,7 +299,10 @@ inductive VPc
   | rheld (op : String) (hit : Option Nat)      -- read lock held; lookup result
   | needW (op : String)                          -- read section missed, next: write lock
   | wheld (op : String) (res : String)           -- write lock held, effect done
-  | incChild (child : Nat)                       -- `inc` through a returned handle
+  | incChild (child : Nat)                       -- `inc` through a returned handle: call seen, no step yet
+  | incCas (child : Nat) (cur : UInt64)          -- `inc` written as a loop: loaded `cur`, next is the compare-exchange to `cur + 1`
+  | incRetry (child : Nat) (cur : UInt64)        -- `inc` written as a loop: a compare-exchange failed and reported `cur`; the loop either
+                                                 -- loads again (as from `incChild`) or retries at once with the reported value (as from `incCas`)
   | collecting (keys : List (String × Nat)) (reads : List (String × UInt64 × List Nat))   -- value reads so far: location, value, the children it can be
   | rmRheld (op : String) (done : Option String)  -- `rm` / `reset` pre-check: read lock held; `some rv` = key absent / map empty, the remove / reset is committed with result `rv`
   | rmNeedW (op : String)                         -- `rm` / `reset` pre-check found the key / a non-empty map, read lock released; next: write lock
@@ -349,6 +352,56 @@ def assignReads (binding : List (String × Nat)) : List (String × UInt64 × Lis
     tryCands (fun c => (assignReads binding rest (avail.erase c)).map ((c, v) :: ·)) (cands.filter ok)
 
 def setHandle (s : VSt) (tid c : Nat) : VSt := { s with handle := (tid, c) :: s.handle.filter (·.1 != tid) }
+
+/-- identify the location `loc` as the cell of child `c` (the thread that touches `loc` does so through a handle
+    to `c`): a location that is already bound must be bound to `c`; a location not seen before is bound to `c`,
+    unless `c` already lives at another location. Changes nothing but `binding`. -/
+def bindChild (s : VSt) (loc : String) (c : Nat) : Except String VSt :=
+  match s.binding.find? (·.1 == loc) with
+  | some (_, c') => guard (c' == c) s!"inc on {loc}, which is child {c'}, but the handle is child {c}" (.ok s)
+  | none =>
+    guard (!s.binding.any (·.2 == c)) s!"child {c} already lives at another location than {loc}" <|
+    .ok { s with binding := (loc, c) :: s.binding }
+
+/-- the `inc` of child `c` as ONE `fetch_add` of 1 (ordering at least Relaxed) that returns the child's current
+    value: commits `.inc c` through `vEff`, the call is complete -/
+def vIncAdd (s : VSt) (e : Ev) (th : Th VPc) (c : Nat) : Except String VSt :=
+  guard (e.k == "A" && ordGe e.ord "Relaxed" && e.a == 1) "inc: expected fetch_add Relaxed 1 (or load Relaxed)" <|
+  guard (e.res == s.spec.vals.getD c 0) "inc: wrong old value" <|
+  match bindChild s e.loc c with
+  | .error m => .error m
+  | .ok s1 =>
+    let s2 := (vEff s1 e.tid th.idx (.inc c)).1
+    .ok { s2 with ths := s2.ths.set e.tid { th with pc := none, retv := some "" } }
+
+/-- the `inc` of child `c` written as a compare-exchange loop: its load (ordering at least Relaxed) of the child's
+    cell, which must return the child's current value. A stutter: nothing is committed, the vector's content stays;
+    the thread goes on to the compare-exchange with the value loaded (and the location is identified as the
+    child's cell, exactly as by a `fetch_add`). -/
+def vIncLoad (s : VSt) (e : Ev) (th : Th VPc) (c : Nat) : Except String VSt :=
+  guard (e.k == "L" && ordGe e.ord "Relaxed") "inc: expected load Relaxed" <|
+  guard (e.res == s.spec.vals.getD c 0) "inc: the load returns a wrong value" <|
+  match bindChild s e.loc c with
+  | .error m => .error m
+  | .ok s1 => .ok { s1 with ths := s1.ths.set e.tid { th with pc := some (.incCas c e.res) } }
+
+/-- the compare-exchange (strong or weak, success ordering at least Relaxed) of an `inc` of child `c` whose expected
+    value is `cur`: it must install `cur + 1` (wrapping). A success must have found `cur` in the child's cell - the
+    child's CURRENT value - and commits `.inc c` through `vEff` exactly as the `fetch_add` does; a failure (value
+    changed, or spurious) must report the child's current value and is a stutter. -/
+def vIncCas (s : VSt) (e : Ev) (th : Th VPc) (c : Nat) (cur : UInt64) : Except String VSt :=
+  guard (e.k == "C" && ordGe e.ord "Relaxed" && e.a == cur && e.b == cur + 1)
+    s!"inc: expected cas Relaxed {hexStr cur} -> {hexStr (cur + 1)}" <|
+  match bindChild s e.loc c with
+  | .error m => .error m
+  | .ok s1 =>
+    if e.ok then
+      guard (s.spec.vals.getD c 0 == cur && e.res == cur) "inc: cas succeeded although the child no longer holds the expected value" <|
+      let s2 := (vEff s1 e.tid th.idx (.inc c)).1
+      .ok { s2 with ths := s2.ths.set e.tid { th with pc := none, retv := some "" } }
+    else
+      guard (e.res == s.spec.vals.getD c 0) "inc: failed cas reports a wrong current value" <|
+      .ok { s1 with ths := s1.ths.set e.tid { th with pc := some (.incRetry c e.res) } }
 
 def vStep (s : VSt) (e : Ev) : Except String VSt :=
   match s.ths[e.tid]? with
@@ -425,16 +478,13 @@ def vStep (s : VSt) (e : Ev) : Except String VSt :=
         guard (e.k == "x" && e.loc == "lk") "expected write unlock" <|
         .ok (setTh { s with lockW := none } { th with pc := none, retv := some res })
       | .incChild c =>
-        guard (e.k == "A" && ordGe e.ord "Relaxed" && e.a == 1) "inc: expected fetch_add Relaxed 1" <|
-        guard (e.res == s.spec.vals.getD c 0) "inc: wrong old value" <|
-        match s.binding.find? (·.1 == e.loc) with
-        | some (_, c') =>
-          guard (c' == c) s!"inc on {e.loc}, which is child {c'}, but the handle is child {c}" <|
-          .ok (setTh (vEff s e.tid th.idx (.inc c)).1 { th with pc := none, retv := some "" })
-        | none =>
-          guard (!s.binding.any (·.2 == c)) s!"child {c} already lives at another location than {e.loc}" <|
-          let s1 := (vEff s e.tid th.idx (.inc c)).1
-          .ok (setTh { s1 with binding := (e.loc, c) :: s1.binding } { th with pc := none, retv := some "" })
+        -- an update through a handle: one `fetch_add`, or - beginning with a load - a load + compare-exchange loop
+        if e.k == "L" then vIncLoad s e th c else vIncAdd s e th c
+      | .incCas c cur => vIncCas s e th c cur
+      | .incRetry c cur =>
+        -- after a failed compare-exchange that reported `cur`: a load is treated exactly as at `incChild`, anything
+        -- else exactly as at `incCas c cur`
+        if e.k == "L" then vIncLoad s e th c else vIncCas s e th c cur
       | .collecting ks reads =>
         let todo := ks.map (·.2)
         if e.k == "L" then
